@@ -10,8 +10,13 @@
     * n = 1, real and complex: refused iff the entry is zero, otherwise the solve is exact;
     * n = 2, real, every matrix and right-hand side: det ≠ 0 ⇒ accepted, A·x = b exactly, |multiplier| ≤ 1
       (both pivoting branches, both "skip zero column" branches); det = 0 ⇒ SingularMatrix.
-  What is NOT a theorem: sizes ≥ 3 (and complex 2×2) in exact arithmetic, and the rounding-error bound itself,
-  which is a statement about IEEE arithmetic.  For those the model is only *executed*: X-lu runs `LU.decomp` /
+    * every n ≥ 1, real (model `LUF`, the closed form of the same loops; both real models answer every X-lu line and
+      must agree with each other and with Rust bit for bit): whenever the factorisation is accepted, the solve returns
+      an x with A·x = b exactly for every right-hand side, every stored multiplier has magnitude ≤ 1 and every
+      diagonal entry of U is non-zero (`LUF.c16_general_exact`, by induction over the elimination steps); a matrix
+      whose first column is zero is refused (`LUF.c16_zero_first_column`).
+  What is NOT a theorem: "every nonsingular matrix of size ≥ 3 is accepted" (the converse direction), complex
+  sizes ≥ 2 in exact arithmetic, and the rounding-error bound itself, which is a statement about IEEE arithmetic.  For those the model is only *executed*: X-lu runs `LU.decomp` /
   `LU.solve` / `LU.decompC` / `LU.solveC` at `Float` beside the Rust routines (factors, pivots, solutions agree
   bit for bit on the exhaustive small-integer set and the random families), and `bin/lu_oracle.py` checks residual,
   multiplier and singularity claims of those same outputs in exact rational arithmetic.
@@ -19,6 +24,7 @@
   signature takes `a: &Matrix` (so it cannot be written) is checked on the source text by bin/props.py.
 -/
 import IvpModel.Proofs.LuLemmas
+import IvpModel.Proofs.LufLemmas
 
 namespace LU
 noncomputable section
@@ -67,3 +73,52 @@ example : (1 : ℚ) * 4 - 2 * 3 ≠ 0 ∧ |(3 : ℚ)| > |1| := by norm_num
 
 end
 end LU
+
+namespace LUF
+noncomputable section
+open Finset
+variable {K : Type} [Field K] [LinearOrder K] [IsStrictOrderedRing K] [SqrtPow K]
+
+/-- **every size**: an accepted factorisation solves `A·x = b` exactly for every right-hand side; partial pivoting keeps
+    every stored multiplier at most 1 in magnitude; `U` has a non-zero diagonal -/
+theorem c16_general_exact (n : Nat) (hn : 2 ≤ n) (a0 F : Array K) (ip : Array Nat)
+    (h : decomp n n n a0 = .ok (F, ip)) :
+    (∀ (b0 : Array K), b0.size = n → ∀ i, i < n →
+        ∑ j ∈ range n, toFun n a0 i j * (solve n F ip b0).getD j 0 = b0.getD i 0) ∧
+    (∀ i j, j < i → i < n → |toFun n F i j| ≤ 1) ∧
+    (∀ j, j < n → toFun n F j j ≠ 0) := by
+  obtain ⟨h1, h2, h3⟩ := decomp_solve_spec n hn a0 F ip h
+  refine ⟨?_, h2, h3⟩
+  intro b0 hb i hi
+  have := h1 b0 hb i hi
+  unfold matVec rowSum vOf at this
+  rw [numzero] at this
+  rw [Finset.range_eq_Ico]
+  exact this
+
+theorem c16_general_exact_n1 (a0 F : Array K) (ip : Array Nat) (h : decomp 1 1 1 a0 = .ok (F, ip))
+    (b0 : Array K) (hb : b0.size = 1) :
+    toFun 1 a0 0 0 * (solve 1 F ip b0).getD 0 0 = b0.getD 0 0 ∧ toFun 1 F 0 0 ≠ 0 :=
+  decomp_solve_one a0 F ip h b0 hb
+
+/-- a zero first column is refused, whatever the size -/
+theorem c16_zero_first_column (n : Nat) (hn : 2 ≤ n) (a0 : Array K) (hz : ∀ i, i < n → toFun n a0 i 0 = 0) :
+    decomp n n n a0 = .error .singular := by
+  unfold decomp
+  have hn1 : n ≠ 1 := by omega
+  simp only [ne_eq, not_true_eq_false, if_false, hn1]
+  obtain ⟨cnt, hc⟩ : ∃ cnt, n - 1 = cnt + 1 := ⟨n - 2, by omega⟩
+  rw [hc]
+  unfold decompGo
+  have hp := (pivot_spec (toFun n a0) n 0 (by omega)).2.1
+  have : Num.eqb (toFun n a0 (pivot (toFun n a0) n 0) 0) (Num.zero : K) = true := by
+    rw [hz _ hp]; simp [Num.eqb, Num.zero]
+  simp [this]
+
+local instance : SqrtPow ℚ := ⟨id, fun a _ => a⟩
+
+/-- non-vacuity: a 3×3 matrix that needs two row exchanges is accepted and solved -/
+example : (decomp (α := ℚ) 3 3 3 #[0, 1, 2, 1, 0, 3, 4, -3, 8]).toOption.isSome = true := by decide +kernel
+
+end
+end LUF
